@@ -28,6 +28,15 @@ CMD_TEMPLATES = [
     "./rel/path.sh {n} > /dev/null",
     "prog $HOME ~ * ? {n}",
     "  prog   spaced    {n}  ",
+    "prog --label=run#3 {n}",
+    "prog http://host/page#frag {n} #42 tail",
+    "sed s#a#b# {n}",
+    "prog '#quoted' \"#dq\" {n}",
+    "prog a;b a|b a&b (x) <in {n}",
+    "prog --json={\\\"k\\\":1} {n}",
+    "prog \\\\ end\\ {n}",
+    "prog !bang %pct ^caret @at +plus {n}",
+    "prog\nnewline {n}",
 ]
 
 
